@@ -407,10 +407,11 @@ impl EventGen for VarElement {
             if key != "_" && key != "__" {
                 let value = eval_attr(&value, context)?;
                 // Detect / prevent uncontrolled expansion of variable values
-                if value.len() > context.config.var_limit as usize {
+                // (the limit is a number of characters, not of bytes)
+                if value.chars().count() > context.config.var_limit as usize {
                     return Err(SvgdxError::VarLimitError(
                         key.clone(),
-                        value.len(),
+                        value.chars().count(),
                         context.config.var_limit,
                     ));
                 }
